@@ -103,7 +103,7 @@ pub fn gen_any_value(rng: &mut Rng, depth: usize) -> MValue {
         3 => MValue::Bool(rng.bool()),
         4 => MValue::Null,
         5 => MValue::Int(rng.below(25) as i128 - 5),
-        6 => MValue::Float([0.0f64, 1.5, -2.25, 1e300][rng.below(4)].to_bits()),
+        6 => MValue::Float(float_bits(rng)),
         7 => MValue::Array(
             (0..rng.below(4))
                 .map(|_| gen_any_value(rng, depth + 1))
@@ -464,4 +464,49 @@ fn der_len(n: usize) -> Vec<u8> {
     } else {
         vec![0x82, (n >> 8) as u8, n as u8]
     }
+}
+
+/// What a caller's verification / decryption function typically does while it runs: use the
+/// library again - unwrap a key through a recipient, check a MAC over a key certificate, verify
+/// an inner signature, build and sign a response.  One round of the four helper families on small fixed messages, from
+/// INSIDE the callback of the helper under test (layered COSE use; the helpers must be
+/// re-entrant on one thread).
+pub fn layered_use() {
+    use coset::{CoseEncrypt0, CoseMac0, CoseRecipient, CoseSign1};
+    let s1 = CoseSign1 {
+        payload: Some(b"inner".to_vec()),
+        signature: vec![1, 2, 3],
+        ..Default::default()
+    };
+    let _ = s1.verify_signature(b"x", |_s, _d| Ok::<(), ()>(()));
+    let m0 = CoseMac0 {
+        payload: Some(b"inner".to_vec()),
+        tag: vec![4, 5],
+        ..Default::default()
+    };
+    let _ = m0.verify_tag(b"", |_t, _d| Ok::<(), ()>(()));
+    let e0 = CoseEncrypt0 {
+        ciphertext: Some(vec![6, 7, 8]),
+        ..Default::default()
+    };
+    let _ = e0.decrypt(b"y", |c, _a| Ok::<Vec<u8>, ()>(c.to_vec()));
+    let r = CoseRecipient {
+        ciphertext: Some(vec![9]),
+        ..Default::default()
+    };
+    let _ = r.decrypt(coset::EncryptionContext::EncRecipient, b"", |c, _a| {
+        Ok::<Vec<u8>, ()>(c.to_vec())
+    });
+    // ... and the creating side
+    let _ = coset::CoseSign1Builder::new()
+        .payload(b"reply".to_vec())
+        .create_signature(b"", |d| d[..d.len().min(4)].to_vec())
+        .build();
+    let _ = coset::CoseMac0Builder::new()
+        .payload(b"reply".to_vec())
+        .create_tag(b"", |d| d[..d.len().min(4)].to_vec())
+        .build();
+    let _ = coset::CoseEncrypt0Builder::new()
+        .create_ciphertext(b"pt", b"", |p, _a| p.to_vec())
+        .build();
 }
